@@ -265,10 +265,11 @@ class Runner:
     def _fresh(self, k):
         """New fluid(s) from pristine specs, new reservoir from constructor args."""
         ospec = self.scn["objects"][k]
+        lib = self.ns.fresh()  # cold module-level / class-level state for every reference
         fl = None
         if ospec.get("fluid") is not None:
-            fl, _ = world.make_fluid(self.ns, self.scn["fluids"][ospec["fluid"]], self.repo_root)
-        cls = getattr(self.ns, ospec["cls"])
+            fl, _ = world.make_fluid(lib, self.scn["fluids"][ospec["fluid"]], self.repo_root)
+        cls = getattr(lib, ospec["cls"])
         pf = ospec["pf"]
         if isinstance(pf, list):
             pf = np.array(pf, dtype=float)
@@ -383,7 +384,7 @@ class Runner:
 
     # ------------------------------------------------------------- main loop
     def run(self):
-        ns, scn = self.ns, self.scn
+        ns, scn = self.ns.fresh(), self.scn  # the scenario's own instance of the library modules
         fluids, tables = [], []
         for fs in scn["fluids"]:
             fl, tb = world.make_fluid(ns, fs, self.repo_root)
